@@ -500,6 +500,13 @@ def desugar_call(bodies, path, body, bb):
         if adt is None and ret_ty == ep and vn[:1].isupper():
             # a variant constructor of an enum defined in another crate (`.map(WsMessage::Binary)`): its function type returns the enum
             adt = {"kind": "enum", "variants": [{"name": vn}]}
+        if vn in ("Some", "Ok", "Err") and (ep.endswith("prelude::v1") or ep in ("std::option::Option", "std::result::Result", "core::option::Option", "core::result::Result")) and len(args) == 1:
+            # `.map(Some)` / `.map_err(Err)`: the std constructors are the std aggregates
+            rvv = _agg(vn, args)
+            cb = _new_block(body, stmts + [{"k": "assign", "place": cdest, "rv": rvv, "span": span, "desugared": "ctor"}], {"k": "goto", "target": ctarget, "span": span})
+            body["blocks"][bb]["term"] = {"k": "switch", "on": {"move": {"l": dl, "p": []}}, "on_ty": "isize", "targets": [[VI[run_v], cb]], "otherwise": pb, "span": span,
+                                          "desugared": t["callee"]["path"]}
+            return True
         if adt is not None and adt.get("kind") == "enum" and any(v.get("name") == vn for v in adt.get("variants", [])):
             vi = [k for k, v in enumerate(adt["variants"]) if v.get("name") == vn][0] if ep in _ADTS else None
             rvv = {"agg": "adt", "adt": ep, "variant": vn, "vi": vi, "fields": [str(k) for k in range(len(args))], "ops": args}
